@@ -330,6 +330,40 @@ Proof.
   apply ha_http_proxy_auth_iff in E. destruct E as [E|E]; congruence.
 Qed.
 
+Theorem ha_http_proxy_via_forward_implies_credentials e c rq :
+  ha_http_proxy_via e c rq = HpProxy -> ha_cfg_creds c = None \/ ha_http_proxy_presented rq = ha_cfg_creds c.
+Proof.
+  unfold ha_http_proxy_via. destruct e; destruct (ha_http_proxy_auth c rq) eqn:E; try discriminate;
+    intros _; now apply ha_http_proxy_auth_iff.
+Qed.
+
+Theorem ha_http_proxy_via_wrong_credentials e c rq x :
+  ha_cfg_creds c = Some x -> ha_http_proxy_presented rq <> Some x ->
+  exists close, ha_http_proxy_via e c rq = HpChallenge close.
+Proof.
+  intros Ec Hne. unfold ha_http_proxy_via.
+  destruct (ha_http_proxy_auth c rq) eqn:E.
+  - apply ha_http_proxy_auth_iff in E. destruct E as [E|E]; congruence.
+  - destruct e; eauto.
+Qed.
+
+Lemma ha_http_proxy_rest_nth c rqs : forall i,
+  nth_error (ha_http_proxy_rest c rqs) i = option_map (ha_http_proxy_via HpServeHTTP c) (nth_error rqs i).
+Proof. induction rqs as [|q t IH]; intros [|i]; cbn; auto. Qed.
+
+(* every request of a connection, whichever entry point takes it *)
+Theorem ha_http_proxy_conn_every_request sniff c rqs i :
+  nth_error (ha_http_proxy_conn sniff c rqs) i = Some HpProxy ->
+  exists rq, nth_error rqs i = Some rq /\
+             (ha_cfg_creds c = None \/ ha_http_proxy_presented rq = ha_cfg_creds c).
+Proof.
+  destruct rqs as [|q t]; [destruct i; discriminate|]. destruct i as [|i]; cbn.
+  - intros [= H]. exists q. split; [reflexivity|]. eapply ha_http_proxy_via_forward_implies_credentials; eauto.
+  - rewrite ha_http_proxy_rest_nth. destruct (nth_error t i) as [rq|]; [|discriminate]. cbn [option_map].
+    intros [= H]. exists rq. split; [reflexivity|].
+    exact (ha_http_proxy_via_forward_implies_credentials HpServeHTTP c rq H).
+Qed.
+
 (* ================================================================================================ *)
 (* socks5 plugin *)
 Theorem ha_socks5_granted_inv c rq m :
@@ -368,13 +402,12 @@ Qed.
 
 Definition ha_starts_with (p : string) (s : string) : bool := is_prefix (ha_str_bytes p) (ha_str_bytes s).
 
-(* routes the code serves without credentials on purpose: the health probe, and the Go profiler endpoints
-   that exist only when webServer.pprofEnable is set *)
+(* the only route the code serves without credentials on purpose: the health probe.  (The /debug/pprof/ family
+   registered under webServer.pprofEnable used to sit on the bare router; since fix 0f1c1cc it hangs off a
+   sub-router that uses the middleware and is therefore not an exception any more.) *)
 Definition ha_declared_public (r : ha_wroute) : bool :=
   match wr_pat r, wr_cond r with
   | PExact "/healthz", CAlways => true
-  | PExact t, CIf "PprofEnable" => ha_starts_with "/debug/pprof/" t
-  | PPrefix t, CIf "PprofEnable" => ha_starts_with "/debug/pprof/" t
   | _, _ => false
   end.
 
